@@ -137,8 +137,9 @@ CHECKS["C15"] = dict(
     parts=[
         dict(test="TestC15Send", quick=320, thorough=30000, per_shard=32),
         dict(test="TestC15Inbound", quick=96, thorough=6000, per_shard=10),
+        dict(test="TestC15Reuse", quick=8, thorough=160, per_shard=2),
     ],
-    floors=dict(any={"TestC15Send.successful_sends": 100, "TestC15Send.exhausted_sends": 40, "TestC15Send.cancelled_sends": 20, "TestC15Send.write_failures": 20, "TestC15Send.short_open_timeout_cases": 20, "TestC15Send.second_sends": 250,
+    floors=dict(any={"TestC15Send.successful_sends": 100, "TestC15Send.exhausted_sends": 40, "TestC15Send.cancelled_sends": 20, "TestC15Send.write_failures": 20, "TestC15Send.short_open_timeout_cases": 20, "TestC15Send.second_sends": 250, "TestC15Reuse.failed_sends_followed_by_another": 60,
                      "TestC15Inbound.malformed_streams": 30, "TestC15Inbound.inbound_messages": 120}),
     assumptions=["libp2p mocknet streams stand in for real transports; timing is virtual"],
 )
@@ -179,7 +180,7 @@ CHECKS["C04"] = dict(
         dict(test="TestC04Restart", quick=384, thorough=16000, per_shard=48),
     ],
     floors=dict(any={"TestC04New.accepted": 60, "TestC04New.refused": 200, "TestC04Restart.revalidation_accepted": 40, "TestC04Restart.revalidation_refused": 40,
-                     "TestC04Restart.restart_unregistered": 40, "TestC04Restart.later_voucher_of_other_type": 100}),
+                     "TestC04Restart.restart_unregistered": 40, "TestC04Restart.later_voucher_of_other_type": 100, "TestC04New.typed_null_voucher_requests": 20}),
     assumptions=["a validator error on restart is only required to give a not-accepted reply and a closed transport (weaker reading, DESIGN C04)"],
 )
 
@@ -213,9 +214,10 @@ CHECKS["C16"] = dict(
           "tracking after cleanup, persistence options exist exactly for live channels with a store. distinct = per-channel (requester, #requests, cleaned, store) shape."),
     parts=[dict(test="TestC16Route", quick=200, thorough=12000, per_shard=25),
         dict(test="TestC16StaleOpen", quick=48, thorough=2400, per_shard=12),
-        dict(test="TestC16CleanupInHook", quick=16, thorough=320, per_shard=8)],
+        dict(test="TestC16CleanupInHook", quick=16, thorough=320, per_shard=8),
+        dict(test="TestC16Fanout", quick=16, thorough=320, per_shard=8)],
     floors=dict(any={"TestC16Route.callbacks": 4000, "TestC16Route.cleanups": 60, "TestC16Route.restarts": 200, "TestC16Route.role_confused": 150,
-                     "TestC16Route.offwire_blocks": 80, "TestC16Route.refused_opens": 20, "TestC16Route.foreign_requests": 150, "TestC16Route.completions": 100, "TestC16StaleOpen.abandoned_opens": 20, "TestC16StaleOpen.controls_after_abandoned_open": 100, "TestC16CleanupInHook.cleanup_completed_inside_hook": 16}),
+                     "TestC16Route.offwire_blocks": 80, "TestC16Route.refused_opens": 20, "TestC16Route.foreign_requests": 150, "TestC16Route.completions": 100, "TestC16StaleOpen.abandoned_opens": 20, "TestC16StaleOpen.controls_after_abandoned_open": 100, "TestC16CleanupInHook.cleanup_completed_inside_hook": 16, "TestC16Fanout.fanout_events": 40}),
     assumptions=["the graphsync double runs the outgoing-request hook before Request returns, as go-graphsync v0.18 does"],
 )
 
@@ -231,9 +233,10 @@ CHECKS["C08"] = dict(
     parts=[
         dict(test="TestC08Chan", quick=240, thorough=16000, per_shard=30),
         dict(test="TestC08Mgr", quick=200, thorough=14000, per_shard=25),
+        dict(test="TestC08Race", quick=480, thorough=9600, per_shard=40),
     ],
     floors=dict(any={"TestC08Chan.pauses": 300, "TestC08Chan.reopens": 200, "TestC08Chan.zero_limit_cases": 20, "TestC08Mgr.pauses": 150,
-                     "TestC08Mgr.resuming_updates": 60, "TestC08Mgr.non_resuming_updates": 40, "TestC08Mgr.rejecting_updates": 20, "TestC08Mgr.reopens": 30}),
+                     "TestC08Mgr.resuming_updates": 60, "TestC08Mgr.non_resuming_updates": 40, "TestC08Mgr.rejecting_updates": 20, "TestC08Mgr.reopens": 30, "TestC08Race.report_read_overlapped_by_update": 300, "TestC08Race.paused_at_new_limit": 100}),
     assumptions=["the transport double obeys pause signals (stops reporting), as a real transport does; blocks already in flight cannot be recalled",
                  "only block directions that can occur on a side are generated (the limit cache is per channel)"],
 )
@@ -249,9 +252,10 @@ CHECKS["C11"] = dict(
     parts=[
         dict(test="TestC11TwoParty", quick=320, thorough=24000, per_shard=40),
         dict(test="TestC11Step", quick=16, thorough=160, per_shard=4),
+        dict(test="TestC11EarlyPause", quick=16, thorough=320, per_shard=8),
     ],
     floors=dict(any={"TestC11TwoParty.actions": 3000, "TestC11TwoParty.voucher_traffic_between_pauses": 200, "TestC11TwoParty.resume_while_other_paused": 500, "TestC11TwoParty.with_responder_completion": 50,
-                     "TestC11Step.applied": 150, "TestC11Step.ignored": 700, "TestC11Step.derived_flag_checks": 1500}),
+                     "TestC11Step.applied": 150, "TestC11Step.ignored": 700, "TestC11Step.derived_flag_checks": 1500, "TestC11EarlyPause.pauses_before_acceptance_processed": 12}),
     assumptions=["messages are delivered before the next action (quiescence between actions); delayed/reordered delivery is exercised by the end-to-end engine"],
 )
 
@@ -268,7 +272,7 @@ CHECKS["C09"] = dict(
         dict(test="TestC09Chan", quick=324, thorough=9720, per_shard=54),
         dict(test="TestC09Close", quick=224, thorough=9800, per_shard=28),
     ],
-    floors=dict(any={"TestC09Chan.endings": 300, "TestC09Close.closes": 120, "TestC09Close.nonterminal_graphsync_errors": 8, "TestC09Close.restarted_with_store_before_ending": 4}),
+    floors=dict(any={"TestC09Chan.endings": 300, "TestC09Close.closes": 120, "TestC09Close.nonterminal_graphsync_errors": 8, "TestC09Close.restarted_with_store_before_ending": 4, "TestC09Close.pause_after_requester_cancelled": 4}),
     assumptions=["'promptly' is decided on the virtual clock: the call must have returned when the bubble is idle 2 virtual minutes later"],
 )
 
@@ -286,7 +290,7 @@ CHECKS["C10"] = dict(
         dict(test="TestC10Cleanup", quick=12, thorough=120, per_shard=6),
         dict(test="TestC10Overlap", quick=16, thorough=320, per_shard=4),
     ],
-    floors=dict(any={"TestC10Restart.restarts": 250, "TestC10Restart.own_side_finished_before_restart": 60, "TestC10Restart.skip_checks": 60, "TestC10Restart.cancel_then_request": 12, "TestC10Restart.queued_message_checks": 8,
+    floors=dict(any={"TestC10Restart.restarts": 250, "TestC10Restart.own_side_finished_before_restart": 60, "TestC10Restart.blocks_recorded_during_restart_validation": 10, "TestC10Restart.skip_checks": 60, "TestC10Restart.cancel_then_request": 12, "TestC10Restart.queued_message_checks": 8,
                      "TestC10Cleanup.cleanup_restarts": 12, "TestC10Overlap.overlapping_restarts": 30}),
     assumptions=["restarts are issued at quiescent points (the skip-count clause is stated for recorded progress)"],
 )
@@ -339,7 +343,7 @@ CHECKS["C01"] = dict(
     parts=[dict(test="TestC01E2E", quick=60, thorough=3000, per_shard=4, watchdog=180),
            dict(test="TestC01Late", quick=48, thorough=2400, per_shard=12)],
     floors=dict(any={"TestC01E2E.initiator_completed": 36, "TestC01E2E.limit_raises": 5, "TestC01E2E.finalization_rounds": 5, "TestC01E2E.completed_through_restart": 2,
-                     "TestC01E2E.blocks": 300, "TestC01E2E.restarts_before_first_block": 4, "TestC01Late.initiator_completed": 24, "TestC01Late.late_update_during_complete_send": 8}),
+                     "TestC01E2E.blocks": 300, "TestC01E2E.restarts_before_first_block": 4, "TestC01Late.initiator_completed": 24, "TestC01Late.late_update_during_complete_send": 6, "TestC01Late.two_round_finalizations": 12}),
     assumptions=["libp2p mocknet and in-memory blockstores stand in for real networks/disks; graphsync is the only transport"],
 )
 
